@@ -22,3 +22,9 @@ package meta
 //@   ensures [C13] removed: !contains(result, finalizer)
 //@   ensures [C13] others-kept: forall f string :: f != finalizer ==> contains(result, f) == contains(finalizers, f)
 //@   ensures [C13] input-untouched: forall k int :: 0 <= k && k < len(finalizers) ==> finalizers[k] == old(finalizers[k])
+
+// TEMPORARILY ASSUMED (sets.String + two loops): union without duplicates, first list's order first
+//@ extern func MergeFinalizers
+//@   params finalizers1, finalizers2
+//@   fresh result
+//@   ensures forall f string :: contains(result, f) == (contains(finalizers1, f) || contains(finalizers2, f))
